@@ -558,7 +558,9 @@ Wit == [
      FBin("&&", "gs", "gi"), FBin("||", "gi", "gs"),
      \* a constant zero of non-void pointer type is NOT a null pointer constant (6.3.2.3p3): no shortcut past 6.5.9p2
      FBin("==", "gq", "kpi"), FBin("!=", "kpc", "gp"), FBin("==", "gfp", "kpi"), FBin("!=", "gq", "knil"), FBin("==", "kpc", "kpi"),
-     FCInit(FBin("==", "kpc", "kpi")), FCInit(FBin("!=", "knil", "kpc"))},
+     FCInit(FBin("==", "kpc", "kpi")), FCInit(FBin("!=", "knil", "kpc")),
+     \* a null pointer constant of pointer type against a non-pointer that is not a null pointer constant (repaired in /repo: pinned)
+     FBin("==", "kv", "gi"), FBin("!=", "gd", "kv"), FBin("==", "gs", "kv"), FCInit(FBin("==", "kv", "k1"))},
   R_unary_operand |-> {FUn("neg", "gp"), FUn("pos", "gs"), FUn("bnot", "gd"), FUn("lnot", "gs"), FUn("bnot", "gp")},
   R_deref_nonpointer |-> {FUn("deref", "gi"), FUn("deref", "gd"), FUn("deref", "gs")},
   R_addr_nonlvalue |-> {FUn("addr", "k1")},
